@@ -558,6 +558,9 @@ def make_input(cfg, case):
         return "soup", ms.soup(random.Random(case[1])), False, "", None
     if kind == "hostile":
         return "hostile", ms.HOSTILE[case[1]], False, "", None
+    if kind == "importchain":
+        files = ms.import_chain(case[1])
+        return "depth:import_chain", files["i.nano"], False, "", files
     if kind == "depth":
         _, g, d, limit = case
         builder, nesting, valid = ms.DEPTH_GENERATORS[g]
@@ -665,10 +668,15 @@ def _plan(ctx, seeds, limit):
     depths = list(DEPTHS) + [limit - 1, limit, limit + 1]
     if not ctx.quick():
         depths += list(DEPTHS_THOROUGH)
+    depths += [2 * limit, 10000, 40000]
     depths = sorted(set(d for d in depths if d > 0))
+    # systematic families (production x context): the depths around the limit and the stack-exhausting ones
+    fam = sorted(set([limit - 1, limit, limit + 1, 2 * limit, 10000, 40000, 100000] + ([] if ctx.quick() else [10, 100, 5000])))
     for g in sorted(ms.DEPTH_GENERATORS):
-        for d in depths:
+        for d in (fam if ":" in g else depths):
             cases.append(("depth", g, d, limit))
+    for d in (10, 100, limit - 1, limit, limit + 1, 2 * limit, 10000):
+        cases.append(("importchain", d))
     # truncation at every 64th byte
     rng = ctx.rng("trunc")
     tr_seeds = list(repo_idx)
@@ -791,7 +799,7 @@ def run(ctx):
         # big inputs first (better load balance), then chunks
         order = list(range(len(cases)))
         def is_heavy(c):
-            return c[0] == "file" or (c[0] == "depth" and c[2] >= 5000)
+            return c[0] == "file" or (c[0] == "depth" and c[2] >= 5000) or (c[0] == "importchain" and c[1] >= 999)
         heavy = [i for i in order if is_heavy(cases[i])]
         light = [i for i in order if not is_heavy(cases[i])]
         chunks = [[cases[i]] for i in heavy]
@@ -850,6 +858,8 @@ def run(ctx):
             triples.add((mut, oc, rec["diag"]))
             if rec["case"][0] == "multi":
                 multi_tab[rec["case"][1]] = "%s/%s" % (rec["asan"], rec["plain"])
+            if rec["case"][0] == "importchain":
+                depth_tab.setdefault("import_chain", {})[rec["case"][1]] = "%s/%s" % (rec["asan"], rec["plain"])
             if rec["case"][0] == "depth":
                 _, g, d, _l = rec["case"]
                 depth_tab.setdefault(g, {})[d] = "%s/%s" % (rec["asan"], rec["plain"])
